@@ -1278,9 +1278,16 @@ impl Drop for Debugger {
 
         match self.debugee.execution_status() {
             ExecutionStatus::Unload => {
-                signal::kill(self.debugee.tracee_ctl().proc_pid(), Signal::SIGKILL)
-                    .expect("kill debugee");
-                waitpid(self.debugee.tracee_ctl().proc_pid(), None).expect("waiting child");
+                let pid = self.debugee.tracee_ctl().proc_pid();
+                signal::kill(pid, Signal::SIGKILL).expect("kill debugee");
+                // a killed tracee may stop in PTRACE_EVENT_EXIT first (PTRACE_O_TRACEEXIT):
+                // let it run on until it is really gone and reaped
+                loop {
+                    match waitpid(pid, None) {
+                        Ok(WaitStatus::Exited(..)) | Ok(WaitStatus::Signaled(..)) | Err(_) => break,
+                        Ok(_) => _ = sys::ptrace::cont(pid, None),
+                    }
+                }
             }
             ExecutionStatus::InProgress => {
                 // ignore all possible errors on breakpoints disabling
